@@ -117,7 +117,7 @@ class MergedView(object):
 
 def build_merged(case, d):
     from phylib.io.merge import Merger
-    specs, info = c11.build({'seed': case['seed']})
+    specs, info = c11.build({'seed': case['seed'], 'finite_only': True})
     subdirs = []
     for p, s in enumerate(specs):
         sd = os.path.join(d, 'probe%d' % p)
